@@ -70,6 +70,22 @@ def _what(kind, prev, ev, step):
         step, ev.get("ev"), vlib.json.dumps(ev.get("step"))[:120], ev.get("h"), (ev.get("pmsg") or "")[:200])
 
 
+def directed_histories():
+    """History bias of DESIGN section 4 C37 / section 5 F1 that the random families reach only rarely (25 steps in a
+    fixed order): auto-renewed subscription, new plan version, renewal, plan deletion, stale period, expiry.
+    It uses only steps of the LavaChain vocabulary and is validated by TLC like every generated history."""
+    me = {"a": "NextBlock", "dt": "monthend"}
+    p10 = {"a": "NextBlock", "dt": "plus10"}
+    ne = {"a": "NextEpoch"}
+    out = []
+    for plan, cons in (("PL1", "C1"), ("PL2", "C2")):
+        h = [{"a": "SubBuy", "creator": cons, "cons": cons, "plan": plan, "months": 1, "auto": True}, ne,
+             {"a": "PlanAdd", "plan": plan, "price": 100 if plan == "PL1" else 200}]
+        h += [me, p10] * 3 + [ne, {"a": "PlanDel", "plan": plan}] + [ne] * 6 + [me, p10] * 4 + [ne]
+        out.append(h)
+    return out
+
+
 def run(ctx):
     H.design_level(ctx, which=ctx.pick(("_sub",), ("", "_sub", "_stake")))
     counts = H.plan(ctx, "C37")
@@ -77,8 +93,9 @@ def run(ctx):
     counts["renew"] = int(counts["renew"] * 1.5)       # the bias this property asks for
     counts["jump"] = ctx.pick(12, 60)
     fams = H.generate(ctx, counts)
-    behs = H.flatten(fams)
+    behs = H.flatten(fams) + directed_histories()
     H.common_cov(ctx, behs)
+    ctx.cov["directed_histories"] = len(directed_histories())
     rows = H.hunt(ctx, "Trace_LavaChain_C37.cfg", behs, "hist", make_sig(False), _what)
     nblocks = sum(1 for r in rows if r["res"] == "block")
     ctx.cov["block_steps"] = nblocks
